@@ -242,11 +242,71 @@ def x6(ctx, rid):
     c03.i10(ctx, rid)
 
 
+COLL_ADD = ('push', 'insert', 'push_back', 'push_front', 'extend', 'get_or_insert_with', 'or_insert', 'or_insert_with')
+COLL_REM = ('remove', 'retain', 'swap_remove', 'pop', 'pop_front', 'pop_back', 'clear', 'drain', 'remove_entry', 'truncate')
+
+
+def collection_effects(prog):
+    """per non-coroutine function of the crate: {(field, 'add'|'rem')} for std collection mutations reached through a named field"""
+    eff = {}
+    for f in prog.fns.values():
+        if f.is_coroutine:
+            continue
+        for c in f.calls:
+            if c.bb not in f.reachable() or not (c.path.startswith('std::vec::Vec') or c.path.startswith('std::collections::')):
+                continue
+            kind = 'add' if c.name in COLL_ADD else ('rem' if c.name in COLL_REM else None)
+            if not kind:
+                continue
+            flds = [x for x in prims.field_of_receiver(f, c) if x and not x.isdigit()]
+            if not flds:
+                continue
+            eff.setdefault(prog.fns[f.id].root, set()).add((flds[-1], kind))
+    return eff
+
+
+def x7(ctx, rid):
+    """a registration in shared state made before a suspension point is not undone by a plain statement after it: in a
+    client-cancellable body, between a call that adds an element to a shared collection and the call that removes it again no real
+    suspension point may lie (the removal must be a Drop guard) - a future dropped there leaves the element registered for ever
+    (e.g. an in-flight marker: every later write of that key is answered `already being written` and acknowledged without data)"""
+    prog = ctx.prog
+    eff = collection_effects(prog)
+    cc, roots = client_cancellable(prog)
+    n = 0
+    bad = 0
+    for f in prog.fns.values():
+        if not f.is_coroutine or (f.id not in cc and f.root not in cc):
+            continue
+        adds, rems = [], []
+        for c in f.calls:
+            if c.bb not in f.reachable() or c.name == 'poll':
+                continue
+            for t in prog.resolve(c):
+                for (fld, kind) in eff.get(t, ()):
+                    (adds if kind == 'add' else rems).append((c, fld))
+        ry = core.real_yields(prog, f)
+        for (a, fa) in adds:
+            for (r, fr) in rems:
+                if fa != fr or a is r or r.bb not in f.reach_from(f.after(a.bb)):
+                    continue
+                n += 1
+                between = [y for y in ry if y in f.reach_from(f.after(a.bb), avoid_exit=[r.bb]) and r.bb in f.reach_from([y])]
+                key = 'registration-undone-by-guard|%s|%s' % (f.root, fa)
+                if between:
+                    bad += 1
+                    ctx.bad(rid, key, a.where(), '`%s` registers an element in the shared collection `%s` and `%s` removes it again, with a suspension point in between (%s): a client that drops the future there leaves the element registered for the rest of the session' % (a.name, fa, r.name, f.where(between[0])))
+                else:
+                    ctx.ok(rid, key, a.where(), 'no suspension point between registration and removal', nontrivial=False)
+    ctx.ok(rid, 'scan', '', '%d registration / removal pairs on shared collections in client-cancellable bodies, %d with a suspension point between' % (n, bad), nontrivial=False, queries=max(1, n))
+
+
 RULES = [
     Rule('C14.X1', 'reservation of a file offset and the OS write consuming it lie in non-coroutine bodies run by a blocking runner', x1, 4),
     Rule('C14.X2', 'no suspension point between the completed record append and its index push', x2, 2),
     Rule('C14.X3', 'in client-cancellable bodies no suspension point is reachable between a move-out of shared state and its hand-back', x3, 4),
     Rule('C14.X5', 'a blob is published in the active slot only once its index is in memory (C04.T1 instances)', x5, 7),
     Rule('C14.X6', 'a short (empty / cut) index file left by an interrupted dump is regenerated at the next start (C03.I10 instance)', x6, 1),
+    Rule('C14.X7', 'no shared-collection registration is undone by a plain statement after a suspension point in a client-cancellable body', x7, 1),
     Rule('C14.X4', 'no RAII guard whose Drop undoes a counter reservation is live across a suspension point of a client-cancellable future', x4, 1),
 ]
